@@ -67,8 +67,10 @@ def write_input(
     fields = {
         "lot": data.lot or "HF",
         "obasis_name": data.obasis_name or "STO-3G",
-        "run_type": orca_keywords[(data.run_type or "energy").lower()],
     }
+    # The run type of the object is only needed when the user does not specify one.
+    if "run_type" not in kwargs:
+        fields["run_type"] = orca_keywords[(data.run_type or "energy").lower()]
     # User-specifield fields have priority, may overwrite default ones.
     fields.update(kwargs)
     write_input_base(fh, data, template, atom_line, fields)
